@@ -4,13 +4,18 @@ import valida.datapath
 
 
 def set_datum(data, data_path, datum):
+    """Set the datum at a concrete path, given as a `DataPath` or as a sequence of
+    mapping keys / list indices."""
 
-    for part in data_path.parts[:-1]:
-        idx = part.condition.callable.kwargs["value"]
+    if isinstance(data_path, valida.datapath.DataPath):
+        keys = data_path.simplify()
+    else:
+        keys = tuple(data_path)
+
+    for idx in keys[:-1]:
         data = data[idx]
 
-    idx = data_path.parts[-1].condition.callable.kwargs["value"]
-    data[idx] = datum
+    data[keys[-1]] = datum
 
 
 class Data:
